@@ -52,6 +52,9 @@ def emit_range(u, src, rel, sig, start_re, end, new_header, *, rules=None, ret_z
                         'c_header': ' '.join(new_header.split()), 'line': text.count('\n', 0, fs + a) + 1})
 
 
+# cbmc's points-to analysis loses the target of a pointer that is written through one member of `union DataPtrs` and read through
+# another (observed: reads through .as8 return unconstrained values while .raw is precise); the type pun is made explicit
+UNION_RULE = Rule(r'\b((?:self->)?\w*data)\.as(8|16|32|64)\b', r'((uint\2_t*)\1.raw)', count='+', regex=True)
 FORMAT_RULE = Rule(r'\bFormat::(\w+)', r'Format_\1', count='+', regex=True)
 
 
@@ -79,12 +82,10 @@ def types_unit(ctx, src):
 # PPM / PGM / PAM loader: allocation, read, commit, in-place gray -> RGB expansion
 # ---------------------------------------------------------------------------------------------------------------------
 PPM_OUTER = ('__CPROVER_assigns(y, __CPROVER_object_whole(self->data.raw))\n'
-             '__CPROVER_loop_invariant(-1 <= y && y < self->height)\n'
-             '__CPROVER_loop_invariant(C06_PPM_INV(self, (y + 1) * self->width))\n'
+             '__CPROVER_loop_invariant(-1 <= y && y < self->height && C06_PPM_INV(self, (y + 1) * self->width))\n'
              '__CPROVER_decreases(y + 1)')
 PPM_INNER = ('__CPROVER_assigns(x, __CPROVER_object_whole(self->data.raw))\n'
-             '__CPROVER_loop_invariant(-1 <= x && x < self->width)\n'
-             '__CPROVER_loop_invariant(C06_PPM_INV(self, y * self->width + x + 1))\n'
+             '__CPROVER_loop_invariant(-1 <= x && x < self->width && C06_PPM_INV(self, y * self->width + x + 1))\n'
              '__CPROVER_decreases(x + 1)')
 
 
@@ -96,6 +97,7 @@ def ppm_load_unit(ctx, src):
         Rule(r'try\s*\{(.*?)\}\s*catch\s*\(const exception&\)\s*\{(.*?)\{ return ; \}\s*\}',
              r'\1 if (verif_exc) {\2 return; } C06_GHOST_AFTER_READ(new_data.raw);', count=1, regex=True),
         Rule(r'\bfreadx\(', 'C06_freadx(', count=1, regex=True),
+        UNION_RULE,
     ]
     emit_range(u, src, CC, LOAD, r'DataPtrs new_data;', ('block', r'if \(format == Format::GRAYSCALE_PPM\)'),
                'void Image_load_ppm_tail(Image* self, FILE* f, Format format, size_t new_width, size_t new_height, '
@@ -120,6 +122,136 @@ def ppm_load_groups(ctx, dim):
                 replay=Replay(mode='gray_load' if fmt == 0 else 'ppm_roundtrip', extra=['in_cw=0x%X' % cw, 'in_alpha=0x%X' % alpha], **RP)))
     return gs
 
+# ---------------------------------------------------------------------------------------------------------------------
+# BMP loader: the BI_RGB and the BI_BITFIELDS row loops
+# ---------------------------------------------------------------------------------------------------------------------
+RGB_INTRO = r'(?<!else )if \(header\.info_header\.compression == \w+\)'
+BF_INTRO = r'else if \(header\.info_header\.compression == \w+\)'
+
+
+def bmp_loops(pb, c):
+    outer = ('__CPROVER_assigns(y, verif_exc, g_fpos, g_reads, __CPROVER_object_whole(new_data), __CPROVER_object_whole(row_data))\n'
+             '__CPROVER_loop_invariant(C06_LOAD_OUTER_INV(%s, %s))\n__CPROVER_decreases((int64_t)y + 1)' % (pb, c))
+    inner = ('__CPROVER_assigns(x, __CPROVER_object_whole(new_data))\n'
+             '__CPROVER_loop_invariant(C06_LOAD_INNER_INV(%s, %s))\n__CPROVER_decreases((int64_t)w - x)' % (pb, c))
+    return {1: outer, 2: inner}
+
+
+def bmp_load_rules():
+    return [
+        Rule(r'\bheader\.info_header\.bit_depth\b', 'bit_depth', count='+', regex=True),
+        Rule(r'\bhas_alpha = (false|true);', r'*has_alpha_out = \1;', count=1, regex=True),
+        Rule('new_data_unique = malloc_unique(', '*new_data_unique = C06_malloc_unique(', count=1),
+        Rule('new_data_unique.get()', '(*new_data_unique)', count=1),
+        Rule('auto row_data_unique = malloc_unique(', 'void* row_data_unique = C06_malloc_unique(', count=1),
+        Rule('row_data_unique.get()', 'row_data_unique', count=1),
+        Rule(r'\bfreadx\(([^;]*)\);', r'C06_freadx(\1); if (verif_exc) return;', count=1, regex=True),
+    ]
+
+
+def bmp_load_unit(ctx, src):
+    u = Unit(ctx, 'bmp_load')
+    u.block(src, CC, LOAD, RGB_INTRO,
+            new_header='void Image_load_bmp_rgb(FILE* f, uint16_t bit_depth, int32_t w, int32_t h, bool reverse_row_order, '
+                       'bool* has_alpha_out, void** new_data_unique)',
+            rules=bmp_load_rules() + [Rule(r'\bfseek\(f, ([^,;]*), SEEK_CUR\)', r'C06_fseek_cur(f, \1)', count=1, regex=True)],
+            ret_zero='', loops=bmp_loops('bit_depth / 8', '3'), nloops=2)
+    u.block(src, CC, LOAD, BF_INTRO,
+            new_header='void Image_load_bmp_bitfields(FILE* f, uint16_t bit_depth, uint32_t bitmask_r, uint32_t bitmask_g, uint32_t bitmask_b, '
+                       'uint32_t bitmask_a, int32_t w, int32_t h, bool reverse_row_order, bool* has_alpha_out, void** new_data_unique)',
+            rules=bmp_load_rules() + [
+                Rule(r'\bheader\.info_header\.bitmask_([rgba])\b', r'bitmask_\1', count=4, regex=True),
+                # unordered_map<uint32_t, size_t> m({{k, v}, ...}); m.at(k)  ->  constant table + lookup stub (throws out_of_range)
+                Rule(r'unordered_map<uint32_t, size_t> offset_for_bitmask\((\{.*?\})\);', r'const C06_kv offset_for_bitmask[] = \1;', count=1, regex=True),
+                Rule(r'\boffset_for_bitmask\.at\(', 'C06_MAP_AT(offset_for_bitmask, ', count=4, regex=True),
+                # try { 4 lookups } catch (const out_of_range&) { throw runtime_error(..); }   (the inner throw is already lowered)
+                Rule(r'try\s*\{(.*?)\}\s*catch\s*\(const out_of_range&\)\s*\{(.*?)\}\s*\}',
+                     r'\1 if (verif_exc == EXC_out_of_range) { verif_exc = 0; \2 } }', count=1, regex=True),
+            ],
+            ret_zero='', loops=bmp_loops('4', '4'), nloops=2)
+    u.write()
+    return u
+
+
+def bmp_load_groups(ctx, dim):
+    gs = []
+    common = dict(harness='harness/C06/bmp_load.c', loops=True, kind='bounded', timeout=600, stage1=120, first='minisat',
+                  engines=['minisat', 'cadical'], object_bits=12,
+                  bound='image width and height symbolic in 1..%d (every residue of width mod 4), bottom-up and top-down, all file contents' % dim)
+    for depth in (24, 32):
+        gs.append(Group(name='Image.load.bmp[BI_RGB,%d]' % depth, entry='h_bmp_rgb', function='Image::load (BMP, BI_RGB row loops)',
+                        enforce='Image_load_bmp_rgb', defines=['C06_DIM=%d' % dim, 'C06_DEPTH=%d' % depth],
+                        clause_note='contracts/C06_bmp.h: every row_data/new_data index inside its allocation; channel c of pixel (x,y) == file byte at '
+                                    'frow(y)*stride + x*pb + (2-c); h*stride bytes consumed; io_error on a short file',
+                        replay=Replay(mode='bmp_load', extra=['in_depth=0x%X' % depth, 'in_comp=0x0'], **RP), **common))
+    gs.append(Group(name='Image.load.bmp[BI_BITFIELDS,32]', entry='h_bmp_bitfields', function='Image::load (BMP, BI_BITFIELDS row loops)',
+                    enforce='Image_load_bmp_bitfields', defines=['C06_DIM=%d' % dim],
+                    clause_note='contracts/C06_bmp.h: channel c of pixel (x,y) == file byte at frow(y)*4w + 4x + byte_of(mask_c); runtime_error iff a mask '
+                                'is not a byte mask',
+                    replay=Replay(mode='bmp_load', extra=['in_depth=0x20', 'in_comp=0x3'], **RP), **common))
+    return gs
+
+# ---------------------------------------------------------------------------------------------------------------------
+# BMP saver: header structs, init_bmp_header, the WINDOWS_BITMAP case of save_helper
+# ---------------------------------------------------------------------------------------------------------------------
+def bmp_types_unit(ctx, src):
+    """the three packed header structs, cut from Image.cc; le_* wrappers are plain integers under the little-endian host model"""
+    u = Unit(ctx, 'bmp_types')
+    u.raw('typedef uint16_t le_uint16_t;\ntypedef uint32_t le_uint32_t;\ntypedef int32_t le_int32_t;')
+    for name in ('WindowsBitmapFileHeader', 'WindowsBitmapInfoHeader', 'WindowsBitmapHeader'):
+        rules = []
+        if name == 'WindowsBitmapInfoHeader':
+            size24 = u.snippet(src, CC, r'static const size_t SIZE24 = (\w+);', group=1)
+            u.raw('#define WindowsBitmapInfoHeader_SIZE24 ((size_t)%s)' % size24)
+            rules = [Rule(r'static const size_t SIZE24 = \w+;', '', count=1, regex=True)]
+        s = u.snippet(src, CC, r'struct %s \{[^{}]*\} __attribute__\(\(packed\)\);' % name, rules=rules)
+        u.raw(s)
+        u.raw('typedef struct %s %s;' % (name, name))
+    u.write(suffix='.h')
+    return u
+
+
+SAVE_OUTER = ('__CPROVER_assigns(y, g_wpos, g_wcalls, g_wv, g_wseen%s)\n'
+              '__CPROVER_loop_invariant(C06_SAVE_OUTER_INV)\n__CPROVER_decreases(y + 1)')
+SAVE_INNER = ('__CPROVER_assigns(x, __CPROVER_object_whole(row_data))\n'
+              '__CPROVER_loop_invariant(C06_SAVE_INNER_INV)\n__CPROVER_decreases(self->width * 3 - x)')
+
+
+def bmp_save_unit(ctx, src):
+    u = Unit(ctx, 'bmp_save')
+    u.function(src, CC, r'static size_t init_bmp_header\(WindowsBitmapHeader& header,\s*ssize_t width, ssize_t height, bool has_alpha,\s*'
+                        r'size_t pixel_bytes, size_t row_padding_bytes\)',
+               new_header='static size_t init_bmp_header(WindowsBitmapHeader* header, ssize_t width, ssize_t height, bool has_alpha, '
+                          'size_t pixel_bytes, size_t row_padding_bytes)',
+               rules=[Rule('header = {};', 'memset(header, 0, sizeof(WindowsBitmapHeader));', count=1),
+                      Rule(r'\bheader\.', 'header->', count='+', regex=True),
+                      Rule('WindowsBitmapInfoHeader::SIZE24', 'WindowsBitmapInfoHeader_SIZE24', count=1)])
+    u.block(src, CC, SAVE, r'case Format::WINDOWS_BITMAP:', new_header='void Image_save_bmp(const Image* self)',
+            rules=[Rule('init_bmp_header(header,', 'init_bmp_header(&header,', count=1),
+                   Rule(r'\bwriter\(', 'C06_writer(', count=4, regex=True),
+                   Rule('auto row_data_unique = malloc_unique(', 'void* row_data_unique = C06_malloc_unique(', count=1),
+                   Rule('row_data_unique.get()', 'row_data_unique', count=1),
+                   Rule(r'\bbreak;\s*\}\s*$', 'return;\n}', count=1, regex=True),
+                   UNION_RULE],
+            ret_zero='', loops={1: SAVE_OUTER % '', 2: SAVE_OUTER % ', __CPROVER_object_whole(row_data)', 3: SAVE_INNER}, nloops=3)
+    u.write()
+    return u
+
+
+def bmp_save_groups(ctx, dim):
+    gs = []
+    for alpha in (0, 1):
+        gs.append(Group(name='Image.save.bmp[alpha=%d]' % alpha, harness='harness/C06/bmp_save.c', entry='h_bmp_save',
+                        function='Image::save_helper (WINDOWS_BITMAP) + init_bmp_header', enforce='Image_save_bmp', loops=True,
+                        defines=['C06_DIM=%d' % dim, 'C06_ALPHA=%d' % alpha, 'C06_SAVE=1', 'C06_DECODE_BMP_HEADER=1'], kind='bounded',
+                        bound='image width and height symbolic in 1..%d (every residue of width mod 4), all pixel contents' % dim,
+                        timeout=600, stage1=120, first='minisat', engines=['minisat', 'cadical'], object_bits=12,
+                        clause_note='contracts/C06_bmp.h: header fields decoded from the emitted bytes (file size == bytes emitted, data offset == header '
+                                    'bytes, dimensions, depth, compression, masks), rows padded to 4, channel c of pixel (x,y) emitted at '
+                                    'data_offset + (h-1-y)*stride + x*pb + byte(c)',
+                        replay=Replay(mode='bmp_roundtrip', extra=['in_alpha=0x%X' % alpha], **RP)))
+    return gs
+
 
 def plan(ctx):
     src = Source(ctx.src)
@@ -129,6 +261,13 @@ def plan(ctx):
     up = ppm_load_unit(ctx, src)
     ctx.functions_under_contract = list(ut.functions) + list(up.functions)
     groups += ppm_load_groups(ctx, dim)
+    ub = bmp_load_unit(ctx, src)
+    ctx.functions_under_contract += ub.functions
+    groups += bmp_load_groups(ctx, dim)
+    ubt = bmp_types_unit(ctx, src)
+    ubs = bmp_save_unit(ctx, src)
+    ctx.functions_under_contract += ubs.functions
+    groups += bmp_save_groups(ctx, dim)
     return groups
 
 
